@@ -951,6 +951,8 @@ func c11(r *Report) {
 			creditOnAllPathsRule(r, swu)
 		}
 		processorChainRule(r)
+		// ... and on every window update being applied, and on frames of any negotiated size being read
+		flowWakeRules(r)
 		// at the bottom of the reassembly loop, returning on an empty buffer must be excluded for the state
 		// "prefix read, length 0": the wait-for-more return must be control dependent on a.length / a.state
 		g := G(ad)
